@@ -202,7 +202,7 @@ def main(tier, seed):
         shutil.rmtree(sdir, ignore_errors=True)
 
     # ---- (i) differential runs
-    nsch = 6 if tier == "quick" else 150
+    nsch = 6 if tier == "quick" else 300
     for k in range(nsch):
         r = rng(seed, "c12/%d" % k)
         S = enrich(r, G.gen_schema(r, name="det_%d" % k, keywordish=(k % 3 == 0)))
